@@ -240,6 +240,8 @@ func mkHandleInstance(sc *Scenario) (*explorer.Instance, *runState) {
 			for _, c := range prog {
 				a := subst(c)
 				if a[0] == "@eof" {
+					// the client goes away: the handler will close the connection at some later point
+					rs.ops = append(rs.ops, &opRec{Thread: ti, Call: w.Steps, Ret: w.Steps, Done: true, Args: a})
 					conn.EOF()
 					yield()
 					continue
@@ -337,12 +339,51 @@ func checkHandle(sc *Scenario, rs *runState, out *explorer.Outcome) []cviol {
 			add("duplicate-delivery", "", fmt.Sprintf("scenario %s: connection %s received %q on %q more often than it was published; history: %s", sc.ID, p.Conn, p.Payload, p.Channel, histString(rs.ops)))
 		}
 	}
+	// Pub/Sub completeness: some order of subscribe / disconnect / publish, consistent with real time,
+	// must explain who received what and every PUBLISH count (a connection whose client has gone may
+	// stop receiving at any later point: its disconnect is a pending operation)
+	var pops []lin.Op
+	hasPub := false
+	for _, o := range rs.ops {
+		conn := sc.Conns[o.Thread]
+		switch strings.ToLower(o.Args[0]) {
+		case "subscribe":
+			for _, ch := range o.Args[1:] {
+				pops = append(pops, lin.Op{Thread: o.Thread, Call: o.Call, Ret: o.Ret, Pending: !o.Done, In: psIn{Kind: "sub", Conn: conn, Chs: []string{ch}}, Out: psOut{}})
+			}
+		case "publish":
+			hasPub = true
+			var recv []string
+			for _, p := range hs.pushes {
+				if len(o.Args) == 3 && p.Channel == o.Args[1] && p.Payload == o.Args[2] {
+					recv = append(recv, p.Conn)
+				}
+			}
+			sort.Strings(recv)
+			v, _ := model.DecodeOne(o.Reply)
+			if o.Done && v.K != model.Int {
+				add("reply-mismatch", "", fmt.Sprintf("scenario %s: PUBLISH replied %s", sc.ID, v))
+			}
+			pops = append(pops, lin.Op{Thread: o.Thread, Call: o.Call, Ret: o.Ret, Pending: !o.Done, In: psIn{Kind: "pub", Ch: o.Args[1]}, Out: psOut{N: v.I, Receivers: recv}})
+		case "@eof":
+			pops = append(pops, lin.Op{Thread: o.Thread, Call: o.Call, Ret: 1 << 60, Pending: true, In: psIn{Kind: "close", Conn: conn}})
+		}
+	}
+	if hasPub {
+		if ok, _ := lin.Check(pops, psModel(), nil); !ok {
+			var desc []string
+			for _, o := range pops {
+				desc = append(desc, fmt.Sprintf("T%d[%d,%d] %+v -> %+v", o.Thread, o.Call, o.Ret, o.In, o.Out))
+			}
+			add("delivery-mismatch", "", fmt.Sprintf("scenario %s: no order of subscribe / disconnect / publish explains who received what and the PUBLISH counts: %s", sc.ID, strings.Join(desc, " ; ")))
+		}
+	}
 	// replies: linearizable against databases + per-connection selection; some linearization must
 	// end in the observed databases
 	var ops []lin.Op
 	for _, o := range rs.ops {
 		name := strings.ToLower(o.Args[0])
-		if name == "subscribe" || name == "publish" {
+		if name == "subscribe" || name == "publish" || name == "@eof" {
 			continue
 		}
 		op := lin.Op{Thread: o.Thread, Call: o.Call, Ret: o.Ret, Pending: !o.Done, In: hIn{Conn: hs.nConn[sc.Conns[o.Thread]], Args: h.B(o.Args...)}}
@@ -479,6 +520,9 @@ func handleScenarios() []*Scenario {
 		add(p, "h:"+p+":subscriber-ping-vs-two-publishers", 1, nil, []string{"c1", "c2", "c3"},
 			th(c("SUBSCRIBE", "ch1", "ch2"), c("PING"), c("GET", "@k0")), th(c("PUBLISH", "ch1", "m1")), th(c("PUBLISH", "ch2", "m2")))
 	}
+	// a subscriber leaves while another one stays and messages keep being published
+	add("C19", "h:C19:subscriber-leaves-other-stays", 1, nil, []string{"c1", "c2", "c3"},
+		th(c("SUBSCRIBE", "ch"), c("@eof")), th(c("SUBSCRIBE", "ch")), th(c("PUBLISH", "ch", "m1"), c("PUBLISH", "ch", "m2"), c("PUBLISH", "ch", "m3")))
 	// pipelines: a connection's commands arrive in one chunk; the parser goroutine runs ahead of the
 	// handler (what it has parsed must stay intact while the handler still executes earlier commands)
 	pipe := func(prop, id string, conns []string, threads ...[][]string) {
